@@ -130,13 +130,13 @@ const TAGS: &[(u32, u32)] = &[
     (1004, 9), (1005, 9), (1016, 9), (1015, 6), (1006, 4), (1007, 6), (1094, 6), (1044, 6), (1106, 4),
     (1023, 6), (5020, 4), (1085, 8), (1024, 6), (5021, 4), (1086, 8), (1025, 6), (5022, 4), (1087, 8),
     (1026, 6), (5023, 4), (1088, 8), (1151, 6), (5024, 4), (1153, 8), (1152, 6), (5025, 4), (1154, 8),
-    (5104, 6), (5106, 4), (5108, 8), (5105, 6), (5107, 4), (5109, 8),
+    (5103, 6), (5107, 4), (5105, 8), (5104, 6), (5108, 4), (5106, 8),   // PREUNTRANS / …FLAGS / …PROG, POSTUNTRANS / …
     (1047, 8), (1112, 4), (1113, 8), (1049, 8), (1048, 4), (1050, 8), (1054, 8), (1053, 4), (1055, 8),
     (1090, 8), (1114, 4), (1115, 8), (5046, 8), (5048, 4), (5047, 8), (5049, 8), (5051, 4), (5050, 8),
     (5055, 8), (5057, 4), (5056, 8), (5052, 8), (5054, 4), (5053, 8),
     (5009, 5), (1009, 4), (1125, 6), (1117, 8), (1116, 4), (1118, 8), (5011, 4),
     (1030, 3), (1039, 8), (1040, 8), (1035, 8), (1034, 4), (5008, 5), (1028, 4), (1037, 4), (5010, 8), (1036, 8),
-    (1080, 8), (1081, 4), (1082, 8),
+    (1080, 4), (1081, 8), (1082, 8),   // CHANGELOGTIME is the INT32 one
 ];
 
 // tag groups that an accessor reads together
@@ -144,7 +144,7 @@ const FILE_GROUP: &[u32] = &[1030, 1039, 1040, 1035, 1034, 1028, 1037, 1036, 111
 const TRIPLES: &[[u32; 3]] = &[
     [1047, 1112, 1113], [1049, 1048, 1050], [1054, 1053, 1055], [1090, 1114, 1115], [5046, 5048, 5047],
     [5049, 5051, 5050], [5055, 5057, 5056], [5052, 5054, 5053], [1080, 1081, 1082],
-    [1023, 5020, 1085], [1024, 5021, 1086], [1151, 5024, 1153], [5105, 5107, 5109],
+    [1023, 5020, 1085], [1024, 5021, 1086], [1151, 5024, 1153], [5103, 5107, 5105], [5104, 5108, 5106],
 ];
 
 fn natural_type(tag: u32) -> u32 {
@@ -263,5 +263,19 @@ pub fn gen(ctx: &mut Ctx) {
     for i in 0..n {
         let bytes = if i % 8 == 7 { gen_package_wf(&mut ctx.rng) } else { gen_typed(&mut ctx.rng) };
         ctx.req(&format!("acc {}", hx(&bytes)));
+    }
+}
+
+#[cfg(test)]
+mod tag_table_matches_the_crate {
+    // the generator's numeric tag table against the crate's own enum (cargo test in the harness crate)
+    #[test]
+    fn scriptlet_and_changelog_tags() {
+        use rpm::IndexTag as T;
+        assert_eq!(T::RPMTAG_CHANGELOGTIME as u32, 1080);
+        assert_eq!(T::RPMTAG_CHANGELOGNAME as u32, 1081);
+        assert_eq!(T::RPMTAG_CHANGELOGTEXT as u32, 1082);
+        assert_eq!((T::RPMTAG_PREUNTRANS as u32, T::RPMTAG_PREUNTRANSFLAGS as u32, T::RPMTAG_PREUNTRANSPROG as u32), (5103, 5107, 5105));
+        assert_eq!((T::RPMTAG_POSTUNTRANS as u32, T::RPMTAG_POSTUNTRANSFLAGS as u32, T::RPMTAG_POSTUNTRANSPROG as u32), (5104, 5108, 5106));
     }
 }
